@@ -1,5 +1,5 @@
 (* Proofs/C19.v -- the application layer factors through a context-free core. *)
-From MS Require Import Proofs.Tactics Proto Spec.AppView Spec.C19.
+From MS Require Import Proofs.Tactics Proofs.Pending Proto Spec.AppView Spec.C19.
 
 Lemma ci_full_inv ci : ci_full ci = true ->
   exists a b c d, ci_ip_src ci = Some a /\ ci_ip_dst ci = Some b /\ ci_port_src ci = Some c /\ ci_port_dst ci = Some d.
@@ -120,12 +120,10 @@ Theorem tcp_first_context_free E clk p ci : ci_full ci = true ->
   | Panic s => proto_repl_tcp E clk ci tcb_new p = Panic s
   end.
 Proof.
-  intros Hf. unfold tcp_first_core, proto_repl_tcp, tcp_first_id.
-  change (t_proto tcb_new =? PROTO_NONE) with true. cbv iota.
-  change (t_smack tcb_new) with BASE_STATE.
+  intros Hf. rewrite proto_repl_tcp_first. unfold tcp_first_core, tcp_first_id.
   destruct (search_next (e_proto_tbl E) BASE_STATE p) as [[id st] n].
-  cbn [t_proto t_pstate].
-  set (tc1 := {| t_smack := st; t_proto := id_of id; t_pstate := t_pstate tcb_new |}).
+  cbv zeta. cbn [t_proto t_pstate].
+  set (tc1 := {| t_smack := st; t_proto := id_of id; t_pstate := None; t_pending := pending_first id p |}).
   pose proof (dispatch_core_sound E clk ci (id_of id) (Some tc1) p Hf) as D. cbn [pstate_of t_pstate tc1 tcb_new] in D.
   destruct (dispatch_core E clk (id_of id) None p) as [[c ps']|s]; cbn [bind fst].
   - destruct D as (ci' & t' & -> & Hp & _). cbn [bind]. eexists _, _. split; [reflexivity|exact Hp].
